@@ -213,7 +213,7 @@ int main(int argc, char** argv) {
     try {
       Problem P;
       VECTOR_INEQS = true;
-      if (C06_LINES && r.coin(45)) { if (!(r.coin(60) ? make_multi(r, P) : make_singular(r, P))) continue; }
+      if (C06_LINES && r.coin(45)) { int fam = r.below(100); if (!(fam < 45 ? make_multi(r, P) : fam < 70 ? make_singular(r, P) : make_param(r, P))) continue; }
       else if (!C06_LINES && r.coin(25)) { if (!make_touch(r, P)) continue; }
       else if (!make_problem(r, P)) continue;
       System& sys = *P.sys; IntervalVector root = sys.box;
